@@ -84,6 +84,13 @@ CLAIMED['C13'].update(category='other', technique=_SEM,
          'HplPredicateExpression constructor contract (may raise TypeError), semantic axioms A-SEM. Bounded only: this<->variable '
          'replacement, the inverse law, event alias normalisation (reference evaluator).',
     note='A-SEM; baseline /verif/baseline/C13.json')
+CLAIMED['C14'].update(category='other', technique='pyvc contracts + z3/cvc5: safety obligations (one per path end that raises) of the rewriting functions under contract; bounded stand-in (native runs on the corpus) for the rest',
+    text='Proved for the split_and chain, the refactor_reference helper chain and negate/join: on every path only the declared '
+         'exception classes escape (no AssertionError, AttributeError, IndexError, KeyError; not/and/or constructors cannot '
+         'raise) and results have the documented kind. Declared may-raise, not excluded: TypeError / HplSanityError from the '
+         'quantifier and predicate constructors. Bounded only: simplify, this/var replacements, canonical_form, public wrappers. '
+         'Open findings F13, F17.',
+    note='baseline /verif/baseline/C14.json')
 CLAIMED['C19'].update(category='other', technique='ground evaluation + pyvc contract of the value serializer; bounded in-process runs of hpl.cli.main (third-party: attrs.asdict, json, argparse)',
     text='Proved/ground: _ast_object_serializer maps enum members to values, non-finite floats to None, leaves finite numbers and other values unchanged. Bounded (A-3P): exit status 0 iff the argument parses, one strictly valid JSON document mirroring the AST, no JSON on failure.')
 NOT_YET = {}
